@@ -48,10 +48,10 @@ Definition agrees (fl : flags) (c : case) : bool :=
 
 Definition b2n (b : bool) (w : N) : N := if b then w else 0%N.
 
-(* bit k (k = 8*fresh_iter + 4*out_fail + 2*keep_vb + keep_nb) is set when the model under that setting of the flags
+(* bits 0..15: bit k (k = 8*fresh_iter + 4*out_fail + 2*keep_vb + keep_nb) is set when the model under that setting of the flags
    agrees with the observation; bit 0 = as pinned, bit 15 = all repaired *)
-Definition flag_settings : list flags :=
-  flat_map (fun fi => flat_map (fun o => flat_map (fun v => map (fun n => mkF v n o fi) [false; true]) [false; true])
+Definition flag_settings (a : bool) : list flags :=
+  flat_map (fun fi => flat_map (fun o => flat_map (fun v => map (fun n => mkF v n o fi a) [false; true]) [false; true])
                                [false; true]) [false; true].
 
 Fixpoint mask_from (c : case) (fls : list flags) (w : N) : N :=
@@ -60,9 +60,15 @@ Fixpoint mask_from (c : case) (fls : list flags) (w : N) : N :=
   | fl :: t => (b2n (agrees fl c) w + mask_from c t (2 * w))%N
   end.
 
-Definition mask (c : case) : N :=
+(* `a` = attr_fix: the 16 settings of the other four flags with the attribute repair (a = true) or without *)
+Definition mask_a (a : bool) (c : case) : N :=
   (* the two extreme settings first: when both explain the observation the intermediate ones are not evaluated *)
-  if agrees flags_as_pinned c && agrees flags_fixed c then 65535%N else mask_from c flag_settings 1%N.
+  if agrees (mkF false false false false a) c && agrees (mkF true true true true a) c then 65535%N
+  else mask_from c (flag_settings a) 1%N.
+Definition mask (c : case) : N := mask_a true c.
+(* the attribute repair can matter only when a scalar constant attribute pattern meets a list attribute of that name *)
+Definition attr_sensitive (c : case) : bool := negb (attrs_typed (gp_nodes (c_p c)) (c_g c)).
+Definition mask_asread (c : case) : N := if attr_sensitive c then mask_a false c else mask c.
 
 Definition roots_ok (c : case) : bool := list_eqb Nat.eqb (output_nodes (c_p c)) (c_roots c).
 
@@ -85,7 +91,8 @@ Definition sigma_ok (c : case) : bool :=
   end.
 
 Definition code (c : case) : N :=
-  (mask c + b2n (negb (roots_ok c)) 65536 + b2n (negb (sigma_ok c)) 131072)%N.
+  (mask c + b2n (negb (roots_ok c)) 65536 + b2n (negb (sigma_ok c)) 131072 +
+   (if attr_sensitive c then 262144 + 524288 * mask_asread c else 0))%N.
 
 Fixpoint report (i : nat) (cs : list case) : list (nat * N) :=
   match cs with
